@@ -36,7 +36,7 @@ def initEntries : List InitEntry :=
    ⟨"re", true, .native "re"⟩,
    ⟨"sin", true, .native "sin"⟩,
    ⟨"sinh", true, .native "sinh"⟩,
-   ⟨"sqrt", false, .native "sqrt"⟩,
+   ⟨"sqrt", true, .native "sqrt"⟩,
    ⟨"tan", true, .native "tan"⟩,
    ⟨"tanh", true, .native "tanh"⟩,
    ⟨"tau", true, .number 0x401921fb54442d18 0x0000000000000000⟩,
